@@ -19,6 +19,11 @@ import Ipv8.C13.Lemmas
 
 namespace Ipv8.C13
 
+/-! The theorems over the kernel tables B–G, I, J–L, O (more candidates, the other four histories of the introducer,
+    bootstrap / own-machine introducer, address changes, churn, RandomWalk time-outs) are in `PropsThorough.lean`: they are
+    built and re-proved in the THOROUGH tier only, so that a quick run whose `Gen.lean` changed re-proves five tables
+    (A, H, M, N, P) instead of seventeen. -/
+
 /-! ## the script tables — PARTIAL
 
   FULL STATEMENT (not proved, and false for the code as it is — see the two witnesses below):
@@ -80,39 +85,6 @@ theorem style_respected_partial (c : Cfg) : styleOk c = true := by
   simp only [Bool.and_eq_true] at h
   exact h.1.2
 
-/-- 1..5 candidates: with four further live candidates that walked to the introducer before the introduced peer did, and
-    with two that did so afterwards, the script still ends in mutual verification (the introducer's choice falls on P).
-    (`introducer_packets_any_table` below is a conditional statement about one step, not a lift of this table.) -/
-theorem intro_reaches_more_candidates_partial (c : Cfg) :
-    mutualOk c (scriptK c 4 true) = true ∧ mutualOk c (scriptK c 2 false) = true :=
-  ⟨of_all tableB c, of_all tableC c⟩
-example : (prehistoryK ⟨.none, .none, .diff, false⟩ 4 true).nodes[0]?.map (·.peers.length) = some 5 := by decide +kernel
-
-/-- the other history — the introducer never received a request from the introduced peer and knows it only from its
-    RESPONSE (it was introduced to it by a fourth node): same conclusion, including LAN-only contact behind one box.
-    (Before the fix of on_introduction_response recorded in known_findings.d/C13.json the same-box rows of this table
-    were false: no LAN address was handed out.) -/
-theorem intro_reaches_response_history_partial (c : Cfg) :
-    introductionOkW c (prehistoryResp c) = true ∧ contactOkW c (prehistoryResp c) = true ∧
-    mutualOk c (scriptResp c) = true ∧ (sameBox c = true → lanOnlyW c (prehistoryResp c) = true) := by
-  have h := of_all tableD c
-  simp only [Bool.and_eq_true, Bool.or_eq_true, Bool.not_eq_true'] at h
-  refine ⟨h.1.1.1, h.1.1.2, h.1.2, fun hs => ?_⟩
-  rcases h.2 with h' | h'
-  · rw [hs] at h'; cases h'
-  · exact h'
-example : ((prehistoryResp ⟨.portRestricted, .portRestricted, .same, false⟩).verifiedAt 0 2).map (·.lan) =
-    some (some ⟨ipv4 192 168 1 3, 8090⟩) := by decide +kernel
-
-/-- the remaining ways the introducer can have learned the introduced peer — repeated requests (the later ones sent after
-    the peer knew its WAN address, so source_wan_address ≠ source_lan_address), request then response, response then
-    request: in each the introduction reaches P, hands out P's real addresses, R's contact attempt succeeds, both are
-    verified at each other, and same-box pairs stay on the LAN -/
-theorem intro_reaches_other_histories_partial (c : Cfg) :
-    allOkW c (prehistoryRepeat c) = true ∧ allOkW c (prehistoryReqResp c) = true ∧ allOkW c (prehistoryRespReq c) = true :=
-  ⟨of_all tableE1 c, of_all tableE2 c, of_all tableF c⟩
-example : ((prehistoryRepeat ⟨.portRestricted, .portRestricted, .diff, false⟩).trace.getLast?.isSome) = true := by decide +kernel
-
 /-- two overlays on one Network (the normal IPv8 deployment): R and P are first connected in overlay 1 (so P is already
     a verified peer of R network-wide and its addresses are already in R's address table), are not yet peers of each
     other in overlay 0, and the script in overlay 0 still succeeds: the introduced addresses are reported as walkable
@@ -123,48 +95,6 @@ theorem intro_reaches_second_overlay_partial (c : Cfg) :
   have h := of_all tableH c
   simp only [Bool.and_eq_true, Bool.not_eq_true'] at h
   exact ⟨h.1.1, h.1.2, h.2⟩
-
-/-- the introducer is a bootstrap server whose address everybody else has on the blacklist (so it never becomes a
-    verified peer; old-style only, it cannot be `ask`ed): introductions received from it are still recorded and walked -/
-theorem intro_reaches_bootstrap_partial (c : Cfg) (h : c.newStyle = false) : allOkW c (prehistoryBootstrap c) = true := by
-  have hm : c ∈ oldCfgs := by simp [oldCfgs, mem_allCfgs, h]
-  exact List.all_eq_true.mp tableI1 c hm
-example : ((prehistoryBootstrap ⟨.none, .none, .diff, false⟩).verifiedAt 2 0) = none := by decide +kernel
-
-/-- the introducer sits behind an unfiltered port-preserving box, knows its WAN address, and the introduced peer runs on
-    the introducer's own machine (first branch of create_introduction_response: LAN address as seen, WAN address =
-    introducer's WAN ip + the peer's port): a public or separately boxed requester and that peer end up verified at each
-    other under their WAN addresses -/
-theorem intro_reaches_own_machine_partial (c : Cfg) (h : c.pl = .pub ∨ c.pl = .diff) :
-    mutualOwn c (scriptOwn c) = true := by
-  have hm : c ∈ ownCfgs := by
-    simp only [ownCfgs, List.mem_filter, mem_allCfgs, true_and, Bool.or_eq_true, beq_iff_eq]; exact h
-  exact List.all_eq_true.mp tableI2 c hm
-
-/-- address changes, rows in which the host concerned is behind a box (for a public host there is no mapping to renew):
-    (1) the introduced peer's mapping is renewed after the introducer learned it and it contacts the introducer again from
-    the new mapping; (2) the requester's mapping is renewed while it is a known peer of the introducer; (3) the requester
-    roams to another public ip (for placement `same`: away from the box it shared with the introduced peer).  In each case
-    (`allOkDyn`, addresses as they are NOW): the puncture request names the requester's current WAN address and reaches
-    the introduced peer, which punctures towards it; the response hands out the introduced peer's current WAN address;
-    a walk of the requester reaches the introduced peer and the answer returns; both are in each other's get_peers()
-    under the current addresses.  (No LAN-path clause here.) -/
-theorem intro_reaches_after_address_change_partial (c : Cfg) :
-    (boxedP c = true → allOkDyn c (preIntroducedRemapped c) = true) ∧
-    (boxedR c = true → allOkDyn c (preRequesterRemapped c) = true ∧ allOkDyn c (preRequesterRoams c) = true) := by
-  refine ⟨fun hp => ?_, fun hr => ?_⟩
-  · exact List.all_eq_true.mp tableJ c (by simp [List.mem_filter, mem_allCfgs, hp])
-  · have h := List.all_eq_true.mp tableK c (by simp [List.mem_filter, mem_allCfgs, hr])
-    simpa [Bool.and_eq_true] using h
-example : boxedR ⟨.portRestricted, .portRestricted, .same, false⟩ = true ∧
-    ((preRequesterRoams ⟨.portRestricted, .portRestricted, .same, false⟩).hosts[1]?.map (·.wan)) = some ⟨ipv4 8 8 8 8, 45001⟩ := by
-  decide +kernel
-
-/-- churn at an introducer without peer limit (max_peers = -1), rows with a boxed introduced peer: its mapping is renewed,
-    the introducer drops it (Network.remove_peer) and verifies it again from its next request; same conclusion
-    (`allOkDyn`) as above -/
-theorem intro_reaches_after_churn_partial (c : Cfg) (hp : boxedP c = true) : allOkDyn c (preChurn c) = true :=
-  List.all_eq_true.mp tableL c (by simp [List.mem_filter, mem_allCfgs, hp])
 
 /-- restart of the requester: after the whole script R shuts down and starts again with a Network filled from its snapshot
     — P's address is known but has NO introducer (and is therefore not walkable for the overlay), nobody is verified.
@@ -186,12 +116,6 @@ theorem intro_reaches_at_peer_limit_of_introduced_partial (c : Cfg) : allOkW c (
   of_all tableN2 c
 example : ((prePeerLimit ⟨.none, .none, .diff, false⟩).nodes[2]?.map (fun n => (n.peers.length, (n.getPeers 0).length, n.maxPeers))) =
     some (2, 1, 1) := by decide +kernel
-
-/-- the contact attempt made by the stock RandomWalk strategy (node timeout 3 s, window 5): both handed-out addresses
-    are probed one second apart; when the unanswered probe times out its address is recognised as an address of the
-    (meanwhile verified) introduced peer — `get_verified_by_address` matches the LAN slot too — so `remove_by_address` is
-    not called and both are STILL verified at each other after the time-outs have been processed -/
-theorem verified_peer_survives_probe_timeout_partial (c : Cfg) : strategyOk c = true := of_all tableO c
 
 /-- LANs numbered outside RFC 1918 (carrier-grade NAT 100.64/10 or other address space behind a NAT; same box or two
     boxes): the introducer hands out the introduced peer's LAN address as it learned it — whatever range it is in — and the
